@@ -299,6 +299,7 @@ func queueAlphabet(ps int, quick bool) []Q {
 		{K: queuedrv.QRead, A: 0},
 		{K: queuedrv.QRead, A: 3},
 		{K: queuedrv.QDone},
+		{K: queuedrv.QReadAll},
 		{K: queuedrv.QAck, A: 0},
 		{K: queuedrv.QAck, A: 1},
 		{K: queuedrv.QReopen},
@@ -321,7 +322,7 @@ func runQueueCheck(ctx *core.Ctx, pool *par.Pool, id string) {
 	if !quick {
 		cfgs = []QCfgSpec{{File: "C", Buffer: 5}, {File: "A", Buffer: 6}, {File: "E", Buffer: 5}, {File: "D", Buffer: 5}}
 		depth = 8
-		ctx.SetBudget(28 * time.Minute)
+		ctx.SetBudget(15 * time.Minute)
 	}
 	full := ctx.Deadline
 	// (i) shapes
@@ -449,7 +450,7 @@ func runC12(ctx *core.Ctx, pool *par.Pool) {
 	if !quick {
 		cfgs = []QCfgSpec{{File: "A", Buffer: 5}, {File: "A", Buffer: 6}, {File: "B", Buffer: 5}, {File: "P16", Buffer: 5}, {File: "P17", Buffer: 5}, {File: "P21", Buffer: 5}}
 		depth = 7
-		ctx.SetBudget(28 * time.Minute)
+		ctx.SetBudget(15 * time.Minute)
 	}
 	var total xstate.Stats
 	fills := 0
